@@ -130,13 +130,26 @@ func checkConcurrent(prop string, x *Exec, c *Case, nsched int) ([]Violation, bo
 				}
 				viol = append(viol, gv...)
 				viol = append(viol, Violation{Prop: prop, Rule: "connection-interference", Sig: "interference " + what,
-					Detail: fmt.Sprintf("connection %d of %d: its %s differs between being served alone and being served concurrently (schedule %d):\n  alone:      %s | %s\n  concurrent: %s | %s", i, len(r.Conns), what, k,
-						trunc(kindsOfCanonical(soloT[i]), 100), trunc(strings.ReplaceAll(soloE[i], "\n", "; "), 200), trunc(pgwire.Kinds(t.Msgs), 100), trunc(strings.ReplaceAll(ce, "\n", "; "), 200))})
+					Detail: fmt.Sprintf("connection %d of %d: its %s differs between being served alone and being served concurrently (schedule %d):\n  alone:      %s | %s\n  concurrent: %s | %s\n  first difference: %s", i, len(r.Conns), what, k,
+						trunc(kindsOfCanonical(soloT[i]), 100), trunc(strings.ReplaceAll(soloE[i], "\n", "; "), 200), trunc(pgwire.Kinds(t.Msgs), 100), trunc(strings.ReplaceAll(ce, "\n", "; "), 200), firstDiff(soloT[i]+"|"+soloE[i], ct+"|"+ce))})
 				return viol, true
 			}
 		}
 	}
 	return viol, n > 1
+}
+
+// firstDiff shows where two renderings part.
+func firstDiff(a, b string) string {
+	n := 0
+	for n < len(a) && n < len(b) && a[n] == b[n] {
+		n++
+	}
+	from := n - 60
+	if from < 0 {
+		from = 0
+	}
+	return fmt.Sprintf("at byte %d: alone %q / concurrent %q", n, trunc(a[from:], 160), trunc(b[from:], 160))
 }
 
 var remoteRe = regexp.MustCompile(`remote=sim:\d+`)
